@@ -182,10 +182,13 @@ PROPS['C10'] = {
     'level_quick': 'exploration', 'level_thorough': 'exploration',
     'rule': 'one evaluation = one seeded steady-state workload (self-re-adding jobs, always-ready descriptors, zero-delay re-arming timers at '
             'seeded priorities, plus finite bursts) run for 50..100000 loop iterations (one epoll_wait = one iteration) at no wall-clock cost; '
-            'per-level dispatch counts are checked over every window of three iterations; non-trivial = at least two callbacks over two '
-            'iterations; distinct = distinct event-sequence hash',
-    'level_text': 'seeded search over continuously-pending workload mixes and run lengths; window-of-three no-starvation oracle and '
-                  'HIGH >= MED >= LOW dispatch-opportunity oracle',
+            '(a fifth of the runs: 4..9 always-ready descriptors, mostly at one level); per-level dispatch counts are checked over every window of '
+            'three iterations and every single item against its bound; non-trivial = at least two callbacks over two iterations; distinct = '
+            'distinct event-sequence hash',
+    'level_text': 'seeded search over continuously-pending workload mixes and run lengths; window-of-three no-starvation oracle, '
+                  'HIGH >= MED >= LOW dispatch-opportunity oracle, and a per-item bound (an item that joins level p behind n others is '
+                  'dispatched within 3 * (ceil((n + 1) / 4) + 1) + 5 iterations: FIFO within a level, four items per turn, a turn at least every '
+                  'third iteration)',
     'level_note': '"pending work" is counted only for items pending for at least three iterations (so that they have certainly been moved to the '
                   'dispatch list), which makes the oracle slightly weaker than the statement and never stronger',
     'technique': 'deterministic simulation: virtual clock and always-ready descriptors make continuously pending load free, iteration-window '
